@@ -30,12 +30,16 @@ bvars == <<G, root, opts, work, outcome, value>>
 
 IsObj(t) == t > 0
 Nat2Str(i) == ToString(i)
-Marker(kind) == IF kind = "dict" THEN "map" ELSE "list"
+IsSetKind(kind) == kind \in {"set", "fset"}         \* Python sets: hashable (here: scalar) members only, read back as multisets
+Marker(kind) == IF kind = "dict" THEN "map" ELSE IF IsSetKind(kind) THEN "mset" ELSE "list"
 Label(kind, i) == IF kind = "dict" THEN Keys[i] ELSE Nat2Str(i - 1)
 Prefix(lbl, ps) == {<<<<lbl>> \o p[1], p[2]>> : p \in ps}
 \* path set of a container from the path sets of its kids
+\* the members of a set are labelled by their own value (a set has no positions; equal members coincide)
+MemberLabel(ps) == "e:" \o (CHOOSE p \in ps : p[1] = << >>)[2] \o "#0"
 Assemble(kind, built) ==
-  {<< << >>, Marker(kind)>>} \cup UNION {Prefix(Label(kind, i), built[i]) : i \in 1..Len(built)}
+  {<< << >>, Marker(kind)>>} \cup
+     UNION {Prefix(IF IsSetKind(kind) THEN MemberLabel(built[i]) ELSE Label(kind, i), built[i]) : i \in 1..Len(built)}
 ScalarPS(t) == {<< << >>, Scalars[0 - t]>>}
 CycPS == {<< << >>, "CYC">>}
 
